@@ -682,7 +682,57 @@ impl<'a> World<'a> {
             let _ = std::io::stdout().flush();
         }
         self.stats.steps += 1;
+        // storage the operation may legitimately write: that of the instances it names (before and after)
+        let named: Vec<u32> = match op {
+            Op::New { id, .. } | Op::Relocate { id, .. } | Op::Drop { id, .. } | Op::Call { id, .. } => vec![*id],
+            Op::Clone { id, src, .. } | Op::Conv { id, src, .. } => vec![*id, *src],
+            Op::Repeat { step } => match self.calls.get(step) {
+                Some((Op::Call { id, .. }, _)) => vec![*id],
+                _ => vec![],
+            },
+            Op::EpochFlip { .. } => self.insts.keys().copied().collect(),
+            Op::Anchor { .. } => vec![],
+        };
+        let regions_of = |w: &World, ids: &[u32]| -> Vec<(usize, usize)> {
+            ids.iter().filter_map(|i| w.insts.get(i)).flat_map(|i| i.reals.iter()).filter_map(|r| w.slots.region_of(r.slot)).collect()
+        };
+        let mut allowed = regions_of(self, &named);
         let r = self.apply_inner(op);
+        allowed.extend(regions_of(self, &named));
+        let r = match r {
+            Ok(so) => match self.slots.foreign_diff(&allowed) {
+                Some((off, want, got)) => {
+                    let victim = self
+                        .insts
+                        .values()
+                        .find(|i| i.reals.iter().any(|x| self.slots.region_of(x.slot).map(|(o, l)| off >= o && off < o + l).unwrap_or(false)))
+                        .map(|i| (i.id, i.fam));
+                    let fam = victim.map(|v| v.1).or_else(|| named.first().and_then(|i| self.insts.get(i)).map(|i| i.fam)).unwrap_or(0);
+                    Err(self.viol(
+                        "C15",
+                        "foreign-write",
+                        fam,
+                        "",
+                        format!(
+                            "operation {} wrote outside the storage of the instance(s) it works on: slab offset {} changed{}",
+                            op.kind(),
+                            off,
+                            match victim {
+                                Some((id, _)) => format!(", which belongs to live instance #{} - an operation on one instance modified another", id),
+                                None => " (free storage next to the instances)".to_string(),
+                            }
+                        ),
+                        &[want],
+                        &[got],
+                    ))
+                }
+                None => Ok(so),
+            },
+            Err(v) => Err(v),
+        };
+        // accept what the operation legitimately changed
+        let live: Vec<(usize, usize)> = allowed.iter().copied().filter(|&(o, _)| self.slots.region_at(o).map(|(ro, _)| ro == o).unwrap_or(false)).collect();
+        self.slots.sync(&live);
         match &r {
             Ok(so) => {
                 if so.applied {
@@ -727,7 +777,7 @@ impl<'a> World<'a> {
                         None => continue,
                     };
                     let t = &self.reg.types[ty];
-                    let slot = self.slots.alloc(0);
+                    let slot = self.slots.alloc_packed(t.size, t.align, 0);
                     let p = self.slots.ptr(slot);
                     let ctor = if *fixed { t.new_fixed } else { t.new_from_slice };
                     match guard(|| unsafe { ctor(p, key) }) {
@@ -786,7 +836,7 @@ impl<'a> World<'a> {
                         Some(f) => f,
                         None => continue,
                     };
-                    let slot = self.slots.alloc(0);
+                    let slot = self.slots.alloc_packed(t.size, t.align, 0);
                     let (ps, pd) = (self.slots.ptr(r.slot), self.slots.ptr(slot));
                     match guard(|| unsafe { f(ps, pd) }) {
                         Ok(()) => {
@@ -840,7 +890,8 @@ impl<'a> World<'a> {
                         None => continue,
                     };
                     let t = &self.reg.types[r.ty];
-                    let slot = self.slots.alloc(0);
+                    let (tsize, talign) = (self.reg.types[tty].size, self.reg.types[tty].align);
+                    let slot = self.slots.alloc_packed(tsize, talign, 0);
                     let (ps, pd) = (self.slots.ptr(r.slot), self.slots.ptr(slot));
                     let res = if *by_ref {
                         guard(|| unsafe { (c.by_ref)(ps, pd) })
@@ -918,7 +969,7 @@ impl<'a> World<'a> {
                 for r in inst.reals.iter_mut() {
                     let t = &self.reg.types[r.ty];
                     let o = self.slot_off(t, *off);
-                    let ns = self.slots.alloc(o);
+                    let ns = self.slots.alloc_packed(t.size, t.align, o);
                     unsafe { core::ptr::copy_nonoverlapping(self.slots.ptr(r.slot), self.slots.ptr(ns), t.size) };
                     self.slots.free(r.slot);
                     r.slot = ns;
